@@ -77,6 +77,14 @@ CHECKS = {
         "matching geometry), boolean forms true iff a term is non-empty; near-attack tables equal geometry; dispatch and check queries use "
         "the right king and attacker colour. With C15 this is the whole structural content; the reverse-lookup lemma itself is assumed.",
    note=TB + "Reverse-lookup lemma of chess geometry assumed; occupancy sets assumed consistent (C05)."),
+ "C06": dict(cat="other", ref="DESIGN.md §3 C06",
+   technique="exhaustive tabulation of is_well_formed by constant propagation over 10x13x64x64 tuples; emitter-set and condition-set comparison of generator vs validator",
+   text="Static: Move::is_well_formed is folded per (kind, cell) and its residual tree evaluated on all 4096 (src,dst) pairs: it must equal "
+        "the geometric-possibility predicate written from the rules (532,480 tuples, exhaustive); each generator family reaches exactly "
+        "the emitters of its documented class and the classes partition; all add_move sites pass matches_piece-accepted constants; castling "
+        "conditions of generator and validator are the same four; Move is constructible only through gated constructors. Does not decide "
+        "generator<=>validator equivalence for non-castling moves nor that the emitted bitboard arithmetic is the chess move set.",
+   note=TB + "matches_piece/from_castling/allowed_mask are tabulated by constant folding."),
 }
 
 NOT_YET = {}
